@@ -617,7 +617,7 @@ CONFIGS = [cfg_of(p, cp) for p in POLICIES for cp in (None, '#')]
 UTF8_SAMPLES = ['\u00e9', '\u4e2d', '\U0001F600', 'a\u00e9,\u4e2d\n', '\u00e9\r\n\u4e2d', '"\u00e9",\U0001F600\n', '\U0001F600\n#\u00df', '"\u20ac\n\u00e9"\r\nb',
                 '\u00e9,\u4e2d\n\U0001F600', '#\u4e2d\n\U00010348,"\u00e9"', 'x\u00e9\r', '\u00df\u00df,\u20ac\u20ac\n']
 # U+FEFF inside the text (a valid 3-byte character; as the first character of a file it is the byte order mark of finding F12)
-UTF8_FEFF_SAMPLES = ['a\ufeffb\n', 'a,b\n\ufeffc\n']
+UTF8_FEFF_SAMPLES = ['a\ufeffb\n', 'a,b\n\ufeffc\n', '\ufeffa,b\n', '\ufeff"x",y\r\nz', 'a\ufffdb,c\n\ufffd']     # also: a byte order mark at the very start (any first chunk size), and the valid character U+FFFD
 
 
 def large_files():
